@@ -119,6 +119,32 @@ def r16_4(ck, F):
               b.loc(ts[0][0]) if ts else b.loc(0))
 
 
+def r16_5(ck, F):
+    ck.rule("R16.5", "one critical section per broadcast: Sender::send takes the inner lock exactly once and the guard is "
+            "not released before the fan-out loop, the ready-list drain and the write-back of the subscriber list are done",
+            "two Sender clones sending concurrently: the second send runs inside the first one's fan-out window, sees an "
+            "empty subscriber list and its value reaches nobody, without any Lagged marker", floor=2)
+    b = F.body(SEND)
+    locks = [bb for bb, t in b.calls("std::sync::Mutex::lock")]
+    ck.expect(len(locks) == 1, "send#single-lock", "exactly one Mutex::lock in send",
+              f"{len(locks)} Mutex::lock calls in broadcast send: the fan-out is split over several critical sections", b.loc(locks[0]) if locks else b.loc(0))
+    if len(locks) != 1:
+        return
+    guard = None
+    for bb, t in b.calls("std::result::Result::unwrap"):
+        e = b.expr(t["a"][0])
+        if e[0] == "call" and e[1] == "std::sync::Mutex::lock":
+            guard = t["d"][0]
+    if guard is None:
+        raise mir.AnchorMissing("MutexGuard local of broadcast send")
+    releases = {bb for bb in b.moves_of(guard)}
+    work = [bb for bb, t in b.calls() if (callee(t) or "").endswith("try_send") and "mpsc" in (callee(t) or "")] + \
+           [bb for bb, i, s in b.field_stores("subs")]
+    bad = [w for w in work if b.find_path(sorted(releases), [w]) is not None]
+    ck.expect(bool(work) and not bad, "send#fanout-under-lock", "fan-out and subscriber-list write-back happen before the guard is released",
+              f"the inner guard can be released before {[b.loc(w) for w in bad[:3]]}", b.loc(locks[0]))
+
+
 def run(ck, F):
-    for r in (r16_1, r16_2, r16_3, r16_4):
+    for r in (r16_1, r16_2, r16_3, r16_4, r16_5):
         ck.run_rule(r)
